@@ -31,6 +31,10 @@ def cases(tier, rng):
     thorough = tier == "thorough"
     for c in directed.recreated_class_cases():
         yield "directed-recreated-class", c
+    for c in directed.decorating_another_function_cases():
+        yield "directed-shared-decorator-object", c
+    for c in directed.late_decoration_of_inheriting_override_cases():
+        yield "directed-late-decoration-of-inheriting-override", c
     for kind in DERIVED_KINDS:
         for target in TARGETS:
             for deco in DECOS:
